@@ -214,7 +214,8 @@ fn write_maybe_rpx_dimension(
     unit: &CowRcStr,
 ) {
     let unit_str: &str = &unit;
-    if unit_str == "rpx" {
+    // (unit names are ASCII case-insensitive)
+    if unit_str.eq_ignore_ascii_case("rpx") {
         let new_value = value * 100. / ss.options.rpx_ratio;
         let new_int_value = if (new_value.round() - new_value).abs() <= f32::EPSILON {
             Some(new_value.round() as i32)
